@@ -383,6 +383,18 @@ def capture(ctx, crate, crs, tag):
                 if c.kind == "bool" and c.src and c.src.get("k") == "call" and c.src.get("bb") == si:
                     if q.edge_dominates(b, c.bb, c.target(True), pi):
                         ok = True
+        if not ok and pv is None:
+            # the element is a value of its own (`let element = Element::X(id)`, or the item of a loop over ready-made elements):
+            # the value that was tested by seen.insert is the very value that is queued
+            po = q.origin_thru(b, pt["args"][1], transparent=set())[0]
+            for si, st in seens:
+                so = q.origin_thru(b, st["args"][1], transparent=set())[0]
+                if not (q.same_origin(po, so) or (po.get("l") is not None and po.get("l") == so.get("l") and po["k"] == so["k"])):
+                    continue
+                for c in cs:
+                    if c.kind == "bool" and c.src and c.src.get("k") == "call" and c.src.get("bb") == si:
+                        if q.edge_dominates(b, c.bb, c.target(True), pi):
+                            ok = True
         ctx.ob("capture-pairing" + tag, b.key, "queue:%s#%d" % (pv, ordv[pv]), ok, where_call(b, pi),
                "discovered %s ids are queued exactly once (seen.insert -> push_back)" % pv if ok else why)
     ords = {}
@@ -393,7 +405,7 @@ def capture(ctx, crate, crs, tag):
         for c in cs:
             if c.kind == "bool" and c.src and c.src.get("k") == "call" and c.src.get("bb") == si:
                 tr = c.target(True)
-                if any(pi in b.reachable([tr]) and elem(pt)[0] == sv for pi, pt in pushes):
+                if any(pi in b.reachable([tr]) and (elem(pt)[0] == sv or elem(pt)[0] is None or sv is None) for pi, pt in pushes):
                     used = True
         ctx.ob("capture-pairing" + tag, b.key, "seen:%s#%d" % (sv, ords[sv]), used, where_call(b, si),
                "a newly seen %s is put on the work queue" % sv)
